@@ -13,8 +13,17 @@ pub(crate) struct SpecialPrefixBackend<B: Backend> {
     inner: B,
 }
 
+// identifiers beyond this index are ordinary names (keeps the items table small)
+const MAX_ITEM_INDEX: usize = 1 << 16;
+
+fn item_index(string: &str) -> Option<usize> {
+    let m = RE.captures(string)?;
+    m[1].parse::<usize>().ok().filter(|idx| *idx <= MAX_ITEM_INDEX)
+}
+
 lazy_static! {
-    static ref RE: Regex = Regex::new("^item([0-9]+)").unwrap();
+    // only the canonical spellings item0, item1, ... (no suffix, no leading zeros) are the special symbols
+    static ref RE: Regex = Regex::new("^item(0|[1-9][0-9]*)$").unwrap();
 }
 
 #[derive(Derivative)]
@@ -53,8 +62,7 @@ impl<B: Backend> Backend for SpecialPrefixBackend<B> {
     }
 
     fn intern(&mut self, string: &str) -> Self::Symbol {
-        if let Some(m) = RE.captures(string) {
-            let idx: usize = m[1].parse().unwrap();
+        if let Some(idx) = item_index(string) {
             if self.items.len() <= idx {
                 self.items
                     .extend(iter::repeat(None).take(idx - self.items.len()));
@@ -69,12 +77,13 @@ impl<B: Backend> Backend for SpecialPrefixBackend<B> {
     }
 
     fn intern_static(&mut self, string: &'static str) -> Self::Symbol {
-        if let Some(m) = RE.captures(string) {
-            let idx: usize = m[1].parse().unwrap();
-            if self.items.len() <= idx || self.items[idx].is_none() {
+        if let Some(idx) = item_index(string) {
+            if self.items.len() <= idx {
                 self.items
-                    .extend(iter::repeat(None).take(idx - self.items.len() - 1));
+                    .extend(iter::repeat(None).take(idx - self.items.len()));
                 self.items.push(Some(Cow::Borrowed(string)));
+            } else if self.items[idx].is_none() {
+                self.items[idx] = Some(Cow::Borrowed(string));
             }
             SpecialPrefixSymbol::Item(idx)
         } else {
